@@ -1,4 +1,5 @@
 """C18 — publishing is crash-safe (E1: CrossHair on the real publish()/LocalPipelineIo/refresh_impl, symbolic crash point)."""
+from vlib.core import soft_attr as core_u
 import os
 
 import toasty.pipeline as tpl
@@ -15,7 +16,7 @@ THOROUGH = QUICK + [("chk_publish_crash_n%d" % n, 1200) for n in (5, 6, 7)] + [
 
 def check(run):
     run.uses(tpl.PipelineManager.publish, tlio.LocalPipelineIo.put_item, tlio.LocalPipelineIo.check_exists,
-             tlio.LocalPipelineIo._make_item_name, tcli.refresh_impl)
+             core_u(tlio.LocalPipelineIo, "_make_item_name"), tcli.refresh_impl)
     run.bound(files="<= 4 per image (quick), <= 7 (thorough); index.wtml at any listing position or absent",
               crash="before or in the middle of any single transfer (symbolic transfer number), or none",
               runs="a crashed run followed by a re-run with an arbitrary new listing order", images="<= 2 approved images, <= 3 files each")
